@@ -283,6 +283,21 @@ theorem env_lookup_global_otherwise (nonlocals globals : List (Name × Lit)) (x 
     (h : alookup nonlocals x = none) : envLookup nonlocals globals x = alookup globals x := by
   simp [envLookup, h]
 
+/-- **A name assigned anywhere in the function is local to it** (C01-D42, fixed by c2aeb08): whatever the closure
+and the module bind, a parameter or a name the function assigns somewhere is never read from the surroundings —
+also on a path that has not assigned it yet (there the converter reports `Unbound name`, as Python raises
+`UnboundLocalError`).  Before the fix `_lookup` fell back to a module global of the same name. -/
+theorem assigned_name_never_resolved (nonlocals globals : List (Name × Lit)) (f : Func) (d : VSet) (x : Name)
+    (hd : assignedBlock f.body = some d) (hx : x ∈ d ∨ x ∈ f.params.map Param.name) :
+    substExpr (envLookup nonlocals globals) (resolveBound f) (.var x) = .var x := by
+  have hb : x ∈ resolveBound f := by
+    unfold resolveBound
+    rw [hd]
+    rcases hx with h | h
+    · exact mem_vunion.mpr (Or.inr h)
+    · exact mem_vunion.mpr (Or.inl (mem_vofList.mpr h))
+  simp [substExpr, List.contains_iff_mem.mpr hb]
+
 /-- The right operand of the returned product, if it is a float literal. -/
 def retFactor : List Stmt → Option String
   | [.ret [.binop _ _ (.lit (.flt false m))] _] => some m
